@@ -276,6 +276,19 @@ def run(chk):
             rule = v["rule"] if v["rule"] in ("analysis-incomplete",) else "C04.siblings"
             chk.violation(rule, "%s:member-events:%s" % (key, v["key"]), "the controller assembled from the crate's streams disagrees with PIDControllerStream across a gap: " + v["what"], **v.get("detail", {}))
             ok = False
+    # ... and the combinators that assemble it: difference (setpoint - process), products with the gains, the three-term sum
+    import rules.C02 as C02
+    subc = report.Check("C04", chk.tier)
+    for cname, arity in (("DifferenceStream", None), ("Product2", None), ("ProductStream", 2), ("SumStream", 3), ("Sum2", None)):
+        if prog.has_adt(cname):
+            C02.run_stream(subc, prog, sim, cname, arity)
+    chk.evaluations += subc.evaluations
+    for v in subc.violations:
+        if v["rule"] == "C02.pure":
+            continue
+        chk.violation("C04.siblings" if v["rule"].startswith("C02") else v["rule"], "%s:combinator:%s" % (key, v["key"]),
+                      "the controller assembled from the crate's streams (difference, gain products, three-term sum) no longer equals kp*e + ki*I + kd*D: " + v["what"], **v["detail"])
+        ok = False
     if ok:
         chk.discharge(key)
     chk.assume("real-arithmetic model: f32 rounding / accumulation error not decided", "whole-network equivalence with examples/pid.rs is derived from the shared recurrences, not simulated",
